@@ -215,7 +215,7 @@ def main(modname, prop, argv):
         print(l)
     out_paths = []
     for v in violations:
-        rd = os.path.join(VERIF, "replays", prop)
+        rd = os.path.join(os.environ.get("VERIF_REPLAY_DIR", os.path.join(VERIF, "replays")), prop)
         os.makedirs(rd, exist_ok=True)
         path = os.path.join(rd, digest(v["case"]) + ".json")
         json.dump({"property": prop, "signature": v["signature"], "detail": v["detail"], "case": v["case"]},
@@ -266,8 +266,9 @@ def _write_evidence(mod, prop, args, tot, nreg, nviol, wall, known_lines, harnes
         "wall_s": round(wall, 2),
         "violations": nviol,
     }
-    os.makedirs(os.path.join(VERIF, "evidence"), exist_ok=True)
-    with open(os.path.join(VERIF, "evidence", prop + ".json"), "w") as fh:
+    evdir = os.environ.get("VERIF_EVIDENCE_DIR", os.path.join(VERIF, "evidence"))
+    os.makedirs(evdir, exist_ok=True)
+    with open(os.path.join(evdir, prop + ".json"), "w") as fh:
         json.dump(ev, fh, indent=1, default=str)
 
 
